@@ -238,12 +238,14 @@ _c18 = [J("failsafehttp", "ZZ_H18a_RetryableStatus", note="status code symbolic 
         J("internal/util", "ZZ_H18c_MergeContexts", preempt=1, race=True, labels=["adapter-ctx:"], note="caller ctx in {Background,TODO,cancellable,with value,with deadline(symbolic)} x execution ctx in {Background, cancellable}; who ends first; P=1")]
 _c18t = _c18[:-1] + [J("internal/util", "ZZ_H18c_MergeContexts", preempt=3, race=True, labels=["adapter-ctx:"], note="P=3")]
 PROPS["C18"] = {"quick": _c18, "thorough": _c18t,
-                "level_note": "PARTIAL: only the adapter kernels are decided (retryable-status predicate, Retry-After arithmetic, per-attempt context merging). Everything that needs a real transport (requests as received by a server, body replay, response body readable to the end, gRPC stack) is not applicable to solver-based checking here and is listed under not_applicable.",
-                "assumptions": ["error-message based classification (regexp on url.Error text, x509) is not encoded", "gRPC status.FromError is not encoded"]}
+                "level_note": "PARTIAL: the adapter logic is decided over a stub transport / stub invoker (retryable-status predicate, Retry-After arithmetic, doRequest: per-attempt method/URL/headers/body for every supported body kind, returned response and its body, per-attempt context merging; gRPC interceptors pass-through and retryable codes with the real grpc/status package). Everything that needs a real transport, server or gRPC stack is not applicable to solver-based checking here and is listed under not_applicable.",
+                "assumptions": ["error-message based classification (regexp on url.Error text, x509) is not encoded",
+                                "the stub transport's response body follows net/http's documented contract: reads fail once the context of the request that produced it is done",
+                                "request bodies of at most 2 (symbolic) bytes; caller context background / with value / cancellable"]}
 PROPS["C19"]["quick"] = PROPS["C19"]["quick"] + [J("internal/util", "ZZ_H18c_MergeContexts", preempt=1, race=True, labels=["leak:"], note="context merger goroutine after the attempt returned"),
                                                  J("failsafehttp", "ZZ_H18e_DoRequest", preempt=0, race=True, labels=["http-close:"], note="doRequest over a stub transport, 0-2 retried responses then 200: every response obtained but not returned is closed, the returned one is not")]
 PROPS["C19"]["thorough"] = [dict(j, preempt=2, time_limit_s=9000, note=(j.get("note", "") + "; P=2")) for j in PROPS["C19"]["quick"]]
-PROPS["C19"]["level_note"] = "PARTIAL: core library goroutines/timers and the HTTP/gRPC context merger are decided; release of pooled connections when a response is not closed is net/http.Transport behaviour and not applicable (listed under not_applicable)."
+PROPS["C19"]["level_note"] = "PARTIAL: core library goroutines/timers, the HTTP/gRPC context merger and (over a stub transport) closing of responses that are obtained but not returned are decided; release of pooled connections by net/http.Transport is not applicable (listed under not_applicable)."
 
 DEFAULT_LEVEL_TEXT = ("Bounded symbolic model checking of the real code: the property's harness is executed symbolically from /repo's current "
                       "go/ssa; every feasible path within the stated bounds is explored and each assertion is discharged by an SMT solver for all "
@@ -253,8 +255,8 @@ DEFAULT_LEVEL_NOTE = ("Trusted: the symgo interpreter and its environment stubs 
 
 # Properties not (yet) claimed. Kept current as checks land.
 NOT_APPLICABLE = {
-    "C18": "transport-level clauses (every attempt reaches the server with the original method/URL/headers/complete body; returned body readable to the end; gRPC argument/metadata pass-through on a real connection) depend on net/http, net, gRPC and the kernel: code behind I/O cannot be encoded for the solver. Only the adapter kernels are claimed (see the C18 check).",
-    "C19": "release of pooled connections when a retried/losing response is not closed is net/http.Transport behaviour behind I/O; not encodable. The goroutine/timer clauses for the core library and the context merger are claimed (see the C19 check).",
+    "C18": "clauses that need a real transport, server or gRPC stack (requests as actually received by a server over a connection, streamed bodies, redirects, TLS/x509 and error-message based error classification, gRPC wire metadata) depend on net/http, net, gRPC and the kernel: code behind I/O cannot be encoded for the solver. Claimed instead (see the C18 check): the adapter logic itself over a stub transport obeying net/http's documented request-context contract - doRequest (method/URL/headers/complete body per attempt for all supported body kinds, retryable statuses, Retry-After, returned response = last attempt's, body readable to the end), per-attempt context merging, and the gRPC interceptors with stub invoker/handler and the real grpc/status package.",
+    "C19": "release of pooled connections by net/http.Transport once a response body is closed is transport behaviour behind I/O; not encodable. Claimed (see the C19 check): goroutine/timer quiescence for the core library and the context merger, and - over a stub transport - that every response the HTTP adapter obtains but does not return is closed.",
 }
 for _p in ["C%02d" % i for i in range(1, 20)]:
     if _p not in PROPS:
